@@ -64,13 +64,14 @@ func (l *recLogger) take() []commit.Commit {
 }
 
 type World struct {
-	Cap  int
-	P    *column.Collection
-	M    *Model
-	Log  *recLogger
-	T    *column.Collection
-	R    *column.Collection
-	Keys []string
+	viaOf bool // alternates: CreateColumn(name, ForX()) / CreateColumnsOf({name: sample})
+	Cap   int
+	P     *column.Collection
+	M     *Model
+	Log   *recLogger
+	T     *column.Collection
+	R     *column.Collection
+	Keys  []string
 
 	trigMu  sync.Mutex
 	trigLog map[string][]TrigEvent // trigger name -> events since last cut
@@ -122,12 +123,66 @@ func (w *World) all() []*column.Collection {
 	return out
 }
 
+// dropColumn removes a column everywhere (schema changes are not part of the change stream).
+func (w *World) dropColumn(name string) {
+	for _, c := range w.all() {
+		c.DropColumn(name)
+	}
+	m := w.M
+	for i, c := range m.Cols {
+		if c.Name == name {
+			m.Cols = append(m.Cols[:i:i], m.Cols[i+1:]...)
+			break
+		}
+	}
+	delete(m.Cells, name)
+}
+
+// zeroOf: a Go value whose reflect kind makes CreateColumnsOf choose the column type of kind k
+func zeroOf(k Kind) (any, bool) {
+	switch k {
+	case KInt:
+		return int(0), true
+	case KInt16:
+		return int16(0), true
+	case KInt32:
+		return int32(0), true
+	case KInt64:
+		return int64(0), true
+	case KUint:
+		return uint(0), true
+	case KUint16:
+		return uint16(0), true
+	case KUint32:
+		return uint32(0), true
+	case KUint64:
+		return uint64(0), true
+	case KFloat32:
+		return float32(0), true
+	case KFloat64:
+		return float64(0), true
+	case KBool:
+		return false, true
+	case KString:
+		return "", true
+	}
+	return nil, false
+}
+
 func (w *World) createColumn(c ColSpec) error {
 	for _, col := range w.all() {
+		// every other column of a plain kind is created from a sample value (CreateColumnsOf), as documented
+		if z, ok := zeroOf(c.Kind); ok && w.viaOf {
+			if err := col.CreateColumnsOf(map[string]any{c.Name: z}); err != nil {
+				return err
+			}
+			continue
+		}
 		if err := col.CreateColumn(c.Name, makeColumn(c.Kind)); err != nil {
 			return err
 		}
 	}
+	w.viaOf = !w.viaOf
 	w.M.addCol(c)
 	return nil
 }
@@ -289,6 +344,12 @@ func (w *World) execTxn(c *column.Collection, spec *TxnSpec, oracle bool, observ
 		}
 		return o.Off, true
 	}
+	var delAll []uint32
+	defer func() {
+		for _, off := range delAll {
+			spec.Ops = append(spec.Ops, Op{T: "del", Off: off, GotOff: off, HasOff: true, Done: true})
+		}
+	}()
 	body := func(txn *column.Txn) error {
 		for i := range spec.Ops {
 			o := &spec.Ops[i]
@@ -348,6 +409,16 @@ func (w *World) execTxn(c *column.Collection, spec *TxnSpec, oracle bool, observ
 					continue
 				}
 				err = txn.QueryAt(off, rowFn)
+			case "delall":
+				// the rows Range visits under the chain are the rows DeleteAll must delete (that Range visits the
+				// right rows is C04's business): they are appended to the transaction as plain deletes
+				if o.Created {
+					continue // executed before (twin): the appended deletes do the work
+				}
+				o.Created = true
+				applyChain(txn, m, o.Chain)
+				txn.Range(func(i uint32) { delAll = append(delAll, i) })
+				txn.DeleteAll()
 			case "del":
 				off, ok := resolve(o)
 				if !ok {
